@@ -1,0 +1,66 @@
+//go:build verif
+
+// Contracts for govc (contract-based deductive verification, see /verif/DESIGN.md).
+// Comment-only file: it adds no code and is compiled only with -tags verif.
+
+package service
+
+// Ghost: an error chunk (the literal "]}}" with Err set) was sent to the client.
+// After that the document is abandoned; well-formedness is claimed for the
+// success path only.
+//@ ghost var errReported bool
+
+// (definition of the ghost: not verified against the body, which has no ghost code)
+//@ func onErr
+//@   modifies errReported
+//@   ensures errReported
+
+//@ func writeMap [C15]
+//@   requires value-position: jsValuePos(stream)
+//@   modifies stream.g_state, stream.g_kind, stream.g_depth
+//@   ensures stream.g_depth == old(stream.g_depth)
+//@   ensures stream.g_state[stream.g_depth] == 2
+//@   ensures below: forall d int :: 0 <= d && d < stream.g_depth ==> stream.g_state[d] == old(stream.g_state[d]) && stream.g_kind[d] == old(stream.g_kind[d])
+//@   ensures stream.g_kind[stream.g_depth] == old(stream.g_kind[stream.g_depth])
+//@   loop 1:
+//@     invariant i >= 0
+//@     invariant stream.g_depth == old(stream.g_depth) + 1 && stream.g_kind[stream.g_depth] == 1
+//@     invariant (i == 0 ==> stream.g_state[stream.g_depth] == 0) && (i > 0 ==> stream.g_state[stream.g_depth] == 2)
+//@     invariant stream.g_state[old(stream.g_depth)] == 2 && stream.g_kind[old(stream.g_depth)] == old(stream.g_kind[old(stream.g_depth)])
+//@     invariant forall d int :: 0 <= d && d < old(stream.g_depth) ==> stream.g_state[d] == old(stream.g_state[d]) && stream.g_kind[d] == old(stream.g_kind[d])
+//@     modifies stream.g_state, stream.g_kind, stream.g_depth
+
+// Envelope {"status":..,"data":{"resultType":..,"result":[ ... : three
+// containers open, the innermost is the result array.
+//@ spec fn envelope(s *jsoniter.Stream) bool = s.g_kind[0] == 0 && s.g_state[0] == 2 && s.g_kind[1] == 1 && s.g_state[1] == 2 && s.g_kind[2] == 1 && s.g_state[2] == 2 && s.g_kind[3] == 2
+//@ spec fn inResult(s *jsoniter.Stream) bool = envelope(s) && s.g_depth == 3
+// One stream/series object is open and, inside it, its values array.
+//@ spec fn inValues(s *jsoniter.Stream) bool = envelope(s) && s.g_depth == 5 && s.g_state[3] == 2 && s.g_kind[4] == 1 && s.g_state[4] == 2 && s.g_kind[5] == 2
+//@ spec fn grouped(s *jsoniter.Stream, i int, j int) bool = (i == 0 ==> inResult(s) && s.g_state[3] == 0) && (i != 0 ==> inValues(s) && (j == 0 ==> s.g_state[5] == 0) && (j != 0 ==> s.g_state[5] == 2))
+
+// Log streams: every entry is written inside the values array of exactly one
+// stream object (i == 0 means no stream object has been opened yet, and then
+// nothing at all has been written into "result").
+//@ func (*QueryRangeService).exportStreamsValue [C15]
+//@   requires !errReported
+//@   ensures errReported || jsDone(stream)
+//@   loop 1:
+//@     invariant grouped(stream, i, j) && !errReported
+//@     modifies stream.g_state, stream.g_kind, stream.g_depth
+//@   loop 2:
+//@     invariant grouped(stream, i, j) && !errReported
+//@     modifies stream.g_state, stream.g_kind, stream.g_depth
+//@   replay:
+//@     let fp = 0
+//@     import "strings"
+//@     import "github.com/metrico/qryn/reader/logql/logql_transpiler_v2/shared"
+//@     import "github.com/metrico/qryn/reader/model"
+//@     go: out := make(chan []shared.LogEntry, 1)
+//@     go: res := make(chan model.QueryRangeOutput, 100)
+//@     go: out <- []shared.LogEntry{{Fingerprint: 0, TimestampNS: 1, Message: "m", Labels: map[string]string{"a": "b"}}}
+//@     go: close(out)
+//@     go: (&QueryRangeService{}).exportStreamsValue(out, res)
+//@     go: body := ""
+//@     go: for c := range res { body += c.Str }
+//@     go: if !strings.Contains(body, `"stream"`) { confirm("first series with fingerprint 0 is written without a stream object: " + body) }
+//@   end
